@@ -181,6 +181,28 @@ fn record_streams<T: MomT>(out: &mut impl Write, prop: &str, n: usize, rng: &mut
     }
 }
 
+/// long add-only streams of small integers for the general macro (C04): the power sums stay small, so
+/// TLC follows orders up to 11 over thousands of observations; observed at a few lengths
+fn record_long_int<T: MomT>(out: &mut impl Write, n: usize, rng: &mut Xoshiro256PlusPlus, rep: &mut Report) {
+    for (regime, lo, hi) in [("ints -50..50", -50i64, 50i64), ("ints 0..9", 0, 9), ("ints 1000..1016", 1000, 1016)] {
+        writeln!(out, "{}", json!({"op": "restart", "K": k_for::<T>(), "ty": T::NAME, "regime": regime, "mode": "long"})).unwrap();
+        writeln!(out, "{}", json!({"op": "new", "id": 1, "ord": T::ORDER})).unwrap();
+        let mut t = T::new();
+        let pts = [16usize, 64, 256, 1024, n];
+        for i in 0..n {
+            let x = rng.random_range(lo..=hi) as f64;
+            t.add(x);
+            writeln!(out, "{}", add_event(1, x)).unwrap();
+            if pts.contains(&(i + 1)) {
+                writeln!(out, "{}", obs_event(1, &t)).unwrap();
+                rep.evaluations += 1;
+            }
+        }
+        rep.behaviours += 1;
+        rep.bump("traces", 1);
+    }
+}
+
 /// add / merge / clone / serde histories over six objects (C02 C10 C16 C17)
 fn record_histories<T: MomT>(out: &mut impl Write, prop: &str, n: usize, rng: &mut Xoshiro256PlusPlus, rep: &mut Report) {
     let n = if T::ORDER > 6 { n / 4 } else if T::ORDER > 4 { n / 2 } else { n }.max(8);
@@ -325,7 +347,13 @@ pub fn record_moments(path: &str, prop: &str, seed: u64, n: usize, rep: &mut Rep
     match prop {
         "C01" => streams!(average::Mean, average::Variance),
         "C03" => streams!(average::Skewness, average::Kurtosis),
-        "C04" => streams!(average::Moments4, m5::M5, m6::M6, m8::M8, m10::M10),
+        "C04" => {
+            streams!(average::Moments4, m5::M5, m6::M6, m8::M8, m10::M10);
+            let nl = (n * 25).max(4096);
+            record_long_int::<m5::M5>(&mut out, nl, &mut rng, rep);
+            record_long_int::<m8::M8>(&mut out, nl, &mut rng, rep);
+            record_long_int::<m10::M10>(&mut out, nl, &mut rng, rep);
+        }
         "C10" => {
             streams!(average::Variance, average::Moments4, m6::M6);
             histories!(average::Variance, average::Moments4);
